@@ -194,6 +194,14 @@ def run(ctx):
         detail = str(res)
     ctx.ob("C04.1", "%s|head-suppresses" % respond.id, "answering a HEAD request suppresses the body (and only that)", okhd, "%s:%d" % (respond.file, respond.line), detail)
 
+    # ---- C04.6 the framing headers on the wire are the library's own: an application-supplied Content-Length / Transfer-Encoding (in any letter
+    # case) never reaches the header list, so a message cannot carry two contradicting framings (decided by C19's table of add_header)
+    import rules_C19, engine
+    c2 = engine.Ctx("C04", "quick", facts, 0)
+    rules_C19.run(c2)
+    n6 = engine.take_over(ctx, c2.obs, lambda o: o.rule == "C19.1" and o.key.split("|")[-1] in ("table", "atoms", "case-insensitive"), "C04.6")
+    ctx.floor("C04.6 obligations on application-supplied framing headers", n6, 3)
+
     # ---- C04.4 head templates; head before body
     g = wmh
     ctx.touch(g)
